@@ -148,7 +148,7 @@ fn tmp_path(tag: &str) -> PathBuf {
 }
 
 pub fn worker_timeout(thorough: bool) -> std::time::Duration {
-    let secs = std::env::var("SIMCHECK_TIMEOUT").ok().and_then(|s| s.parse::<u64>().ok()).unwrap_or(if thorough { 3600 } else { 600 });
+    let secs = std::env::var("SIMCHECK_TIMEOUT").ok().and_then(|s| s.parse::<u64>().ok()).unwrap_or(if thorough { 1800 } else { 150 });
     std::time::Duration::from_secs(secs)
 }
 
@@ -227,6 +227,10 @@ fn find_dead_index(prop: &str, seed: u64, from: u64, to: u64, thorough: bool) ->
         return None;
     }
     let last = f.stdout.lines().filter_map(|l| l.strip_prefix("PROGRESS ")).filter_map(|s| s.trim().parse::<u64>().ok()).last()?;
+    if f.status.is_none() {
+        // localising a hang costs two full time limits: one is enough, the check fails anyway
+        DEATHS.store(MAX_DEATHS, std::sync::atomic::Ordering::SeqCst);
+    }
     Some(Death { index: last, status: match f.status { Some(st) => format!("{}", st), None => "timeout".to_string() } })
 }
 
